@@ -497,3 +497,27 @@ def check_param_defaults(run, rule, f, params=None, why=''):
                          '' if ok else ('%s re-binds its parameter `%s` to %s on a path where the caller may have passed a value: %s' % (f.qualname, t.id, _ast.unparse(node.ast.value), why or
                                         'what the caller asked for is silently replaced by the default')), node=node.ast, obligation=True)
     return n
+
+
+def module_level_names(module):
+    """every name bound at the top level of a module (imports, defs, classes, assignments, also inside top-level if/try/with/for)"""
+    out = set()
+    todo = list(module.tree.body)
+    while todo:
+        st = todo.pop()
+        if isinstance(st, (ast.FunctionDef, ast.AsyncFunctionDef, ast.ClassDef)):
+            out.add(st.name)
+            continue
+        if isinstance(st, (ast.Import, ast.ImportFrom)):
+            for al in st.names:
+                out.add((al.asname or al.name).split('.')[0])
+            continue
+        for n in ast.walk(st):
+            if isinstance(n, ast.Name) and isinstance(n.ctx, ast.Store):
+                out.add(n.id)
+            elif isinstance(n, (ast.Import, ast.ImportFrom)):
+                for al in n.names:
+                    out.add((al.asname or al.name).split('.')[0])
+            elif isinstance(n, (ast.FunctionDef, ast.ClassDef)):
+                out.add(n.name)
+    return out
